@@ -26,7 +26,7 @@ NS = {
     "schema": schema, "optional": optional, "UUID": uuid.UUID, "datetime": datetime,
     "date": datetime.date, "uuid": uuid, "Decimal": decimal.Decimal,
     "Fraction": fractions.Fraction, "float": float, "math": math, "Nil": Nil,
-    "collections": collections,
+    "collections": collections, "substitute": d42.substitute,
 }
 
 
